@@ -1,15 +1,13 @@
-(** Obligations of C20 over gen/FsGen19.v and gen/FsGen20.v (those of C19 are in FsGenSpec19.v): what the models in coq/Fsx transcribe from the
-    source, compared SEMANTICALLY where go2coq can extract it (comparisons
-    normalised to (smaller, op, larger) with widening conversions and
-    parentheses removed; additive constants, shift amounts and mask widths as
-    numbers, proved equal to the constants the models use; structural facts as
-    booleans).  Text equality remains only for the statement sequences of
-    Mapper.QIDFor and localToQid and the stat/append tail of the localfs loop,
-    rendered by go/printer (insensitive to re-formatting).  An edit that breaks
-    one of these breaks C19_source_shape / C20_source_shape and sends the check
-    into its search for a concrete failing input. *)
+(** Obligations of C20 over gen/FsGen20.v (those of C19 are in FsGenSpec19.v).
+    Semantic extraction: widths, shift amounts, counter steps and mode bits as
+    numbers, proved equal to what the models use; ModeFromOS / OSMode / QIDType as
+    decision tables, and the hand models of Mode.v proved EQUAL to the
+    interpretation of those tables for every mode word; structural facts as
+    booleans.  Alpha-normalised text remains for the statement sequences of
+    Mapper.QIDFor and localToQid (their order is their content): renaming a local
+    does not change it. *)
 From Coq Require Import String List Bool NArith.
-From P9V Require Import gen.ConstGen gen.FsGen20 Fsx.Qid.
+From P9V Require Import gen.ConstGen gen.FsGen20 Fsx.Qid Fsx.Mode.
 Import ListNotations.
 Open Scope string_scope.
 
@@ -19,8 +17,6 @@ Fixpoint strs_eqb (a b : list string) : bool :=
   | x :: a', y :: b' => String.eqb x y && strs_eqb a' b'
   | _, _ => false
   end.
-Definition cmp_eqb (a b : string * string * string) : bool :=
-  let '(a1, a2, a3) := a in let '(b1, b2, b3) := b in String.eqb a1 b1 && String.eqb a2 b2 && String.eqb a3 b3.
 Fixpoint terms_eqb (a b : list (string * N)) : bool :=
   match a, b with
   | [], [] => true
@@ -28,39 +24,64 @@ Fixpoint terms_eqb (a b : list (string * N)) : bool :=
   | _, _ => false
   end.
 
-(** the meaning of an extracted comparison operator *)
-Definition cmp_sem (op : string) : option (N -> N -> bool) :=
-  if String.eqb op "<" then Some N.ltb else if String.eqb op "<=" then Some N.leb
-  else if String.eqb op "==" then Some N.eqb else None.
-
-(** * C20 *)
 Definition fs_qid_shape_ok : bool :=
   (* encodeLikely: widths and shift amounts are the constants the model uses *)
   N.eqb fs_enc_ino_bits localfs_inodeLikelyBits
   && N.eqb fs_enc_upper_bits localfs_devUpperBits && N.eqb fs_enc_upper_offset localfs_devUpperOffset
-  && String.eqb fs_enc_major_def "unix.Major(dev)" && String.eqb fs_enc_minor_def "unix.Minor(dev)"
-  && String.eqb fs_enc_q_init "(ino & inoLikely)"
+  && N.eqb fs_enc_major_bits localfs_devMajorLikelyBits && N.eqb fs_enc_minor_bits localfs_devMinorLikelyBits
   && terms_eqb fs_enc_or_terms [("minor", localfs_inodeLikelyBits); ("major", (localfs_inodeLikelyBits + localfs_devMinorLikelyBits)%N)]
   && strs_eqb fs_enc_shape
        ["inoLikely"; "guard (ino & ^inoLikely) != 0"; "upperUnlikely"; "guard (dev & upperUnlikely) != 0";
-        "major"; "guard nOnes 12 < major"; "minor"; "guard nOnes 12 < minor"; "q"; "or"; "or"; "return q, true"]
-  && N.eqb 12 localfs_devMajorLikelyBits && N.eqb 12 localfs_devMinorLikelyBits
+        "major := unix.Major(dev)"; "guard nOnes < major"; "minor := unix.Minor(dev)"; "guard nOnes < minor";
+        "q := (ino & inoLikely)"; "or"; "or"; "return q, true"]
   && String.eqb fs_nOnes "((1 << n) - 1)"
-  (* fallback table: keyed by the devino value built from the stat fields; counter from 2^63 in steps of 1 *)
+  (* fallback table: one Load and one LoadOrStore, both keyed by the devino VALUE built from the same two stat fields
+     that encodeLikely gets; counter from 2^63 in steps of 1 *)
   && fs_fallback_key_is_value && String.eqb fs_fallback_key_fields "stat.Dev, stat.Ino"
+  && String.eqb fs_fallback_encode_args "stat.Dev, stat.Ino"
   && N.eqb fs_fallback_add_delta 1 && N.eqb fs_nextQid_init next0
   && strs_eqb fs_localToQid_body
-       ["stat := fi.Sys().(*syscall.Stat_t)";
-        "if q, ok := encodeLikely(uint64(stat.Dev), stat.Ino); ok { return q, nil }";
-        "di := devino{uint64(stat.Dev), stat.Ino}";
-        "if q, ok := qids.Load(di); ok { return q.(uint64), nil }";
-        "q, _ := qids.LoadOrStore(di, nextQid.Add(1))";
-        "return q.(uint64), nil"]
-  (* qids: NewPath adds 1; paths only touched inside one Lock ... deferred Unlock section of QIDFor *)
+       ["_v1 := _v0.Sys().(*syscall.Stat_t)";
+        "if _v2, _v3 := encodeLikely(uint64(_v1.Dev), _v1.Ino); _v3 { return _v2, nil }";
+        "_v4 := devino{uint64(_v1.Dev), _v1.Ino}";
+        "if _v2, _v3 := qids.Load(_v4); _v3 { return _v2.(uint64), nil }";
+        "_v2, _ := qids.LoadOrStore(_v4, nextQid.Add(1))";
+        "return _v2.(uint64), nil"]
+  (* qids: NewPath adds 1; paths only touched inside the single Lock ... deferred Unlock section of QIDFor *)
   && N.eqb fs_newpath_delta 1 && fs_mapper_paths_guarded && strs_eqb fs_mapper_paths_users ["Mapper.QIDFor"]
   && strs_eqb fs_qidfor_body
-       ["m.mu.Lock()"; "defer m.mu.Unlock()"; "if path, ok := m.paths[q.Path]; ok"; "path := m.g.NewPath()";
-        "m.paths[q.Path] = path"; "return"].
+       ["_v0.mu.Lock()"; "defer _v0.mu.Unlock()"; "if _v2, _v3 := _v0.paths[_v1.Path]; _v3 { return hit }";
+        "_v2 := _v0.g.NewPath()"; "_v0.paths[_v1.Path] = _v2"; "return"]
+  && String.eqb fs_mfo_perm "mode.Perm()" && N.eqb fs_osm_perm_mask p9_AllPermissions && N.eqb fs_filetype_mask p9_FileModeMask.
 
 Lemma qid_shape_ok : fs_qid_shape_ok = true.
 Proof. vm_compute. reflexivity. Qed.
+
+(** * the mode functions as interpretations of the tables read from p9.go *)
+Fixpoint first_case (tbl : list (N * N)) (test : N -> bool) (dflt : N) : N :=
+  match tbl with
+  | [] => dflt
+  | (k, v) :: r => if test k then v else first_case r test dflt
+  end.
+Definition flags_or (tbl : list (N * N)) (test : N -> bool) (acc : N) : N :=
+  fold_left (fun a kv => if test (fst kv) then N.lor a (snd kv) else a) tbl acc.
+
+Definition ModeFromOS_tbl (mode : N) : N :=
+  flags_or fs_mfo_flags (has mode) (N.lor (N.land mode os_ModePerm) (first_case fs_mfo_cases (has mode) fs_mfo_default)).
+Definition OSMode_tbl (m : N) : N :=
+  flags_or fs_osm_flags (has m) (N.lor (N.land m fs_osm_perm_mask) (first_case fs_osm_cases (is_type m) 0)).
+Definition QIDType_tbl (m : N) : N := first_case fs_qt_cases (is_type m) fs_qt_default.
+
+(** the hand models of Mode.v ARE these tables, for every word *)
+Theorem ModeFromOS_is_table : forall mode, ModeFromOS mode = ModeFromOS_tbl mode.
+Proof. intros mode. reflexivity. Qed.
+Theorem OSMode_is_table : forall m, OSMode m = OSMode_tbl m.
+Proof. intros m. reflexivity. Qed.
+Theorem QIDType_is_table : forall m, QIDType m = QIDType_tbl m.
+Proof.
+  intros m. unfold QIDType, QIDType_tbl. cbn [fs_qt_cases fs_qt_default first_case].
+  change p9_ModeDirectory with 16384%N. change p9_ModeSocket with 49152%N. change p9_ModeNamedPipe with 4096%N.
+  change p9_ModeCharacterDevice with 8192%N. change p9_ModeSymlink with 40960%N.
+  destruct (is_type m 16384); [reflexivity|]. destruct (is_type m 49152); [reflexivity|].
+  destruct (is_type m 4096); [reflexivity|]. destruct (is_type m 8192); reflexivity.
+Qed.
